@@ -38,13 +38,13 @@ def run(ctx):
     ctx.cov["rule"] = ("case = (exit code | signal, child delay, delay injected before waitpid); distinct = distinct case tuple per stratum; "
                        "stratum names record the order actually observed (SIGCHLD handler ran during the injected delay or not); non-trivial = all")
     # (a) single manager
-    n = ctx.n(640, 60000)
+    n = ctx.n(640, 20000)
     summ = ctx.run_events(b["plain"], n, shards=8, extra=["--child", b["child"], "--mode", "single"], env=env, timeout=1200,
                           require=[("execute", "exit-nonzero/sigchld-before-waitpid", 20), ("execute", "exit-nonzero/waitpid-first", 20),
                                    ("execute", "signal-death/sigchld-before-waitpid", 10), ("execute", "signal-death/waitpid-first", 10),
                                    ("execute", "exit-zero/sigchld-before-waitpid", 10)])
     # (a') single thread, idle managers alive next to the one that executes (each registers its own SIGCHLD callback)
-    ctx.run_events(b["plain"], ctx.n(320, 30000), shards=8, extra=["--child", b["child"], "--mode", "idle"], env=env, timeout=1200,
+    ctx.run_events(b["plain"], ctx.n(320, 10000), shards=8, extra=["--child", b["child"], "--mode", "idle"], env=env, timeout=1200,
                    require=[("execute-with-idle-managers", "exit-zero/sigchld-before-waitpid/idle-manager-created-first", 5),
                             ("execute-with-idle-managers", "exit-nonzero/sigchld-before-waitpid/idle-manager-created-first", 10),
                             ("execute-with-idle-managers", "exit-nonzero/waitpid-first/idle-manager-created-first", 5),
